@@ -5,7 +5,7 @@
 (* arbitrary where it takes a slice.                                                 *)
 EXTENDS Plan
 CONSTANTS MaxPeers, MaxActors, MaxLoad, MaxGrains, MaxReActors, MaxSharePeers, MaxShareActors, MaxChunk, NKinds, MaxOkb, MaxDerive,
-          BigPeers, SmallActors   \* with BigPeers or more peers only SmallActors actors are enumerated
+          BigPeers, SmallActors, MaxSharePeers2, MaxShareActors2   \* with BigPeers or more peers only SmallActors actors are enumerated
 
 RoleLists == << <<>>, <<"r1">>, <<"r2">>, <<"r1", "r2">> >>
 Kinds == << [role |-> "", single |-> FALSE], [role |-> "r1", single |-> FALSE], [role |-> "r2", single |-> FALSE],
@@ -15,7 +15,8 @@ MkActors(f, n) == [i \in 1..n |-> [id |-> i, role |-> Kinds[f[i]].role, single |
 
 PeerSeqs(maxp) == UNION {{[i \in 1..n |-> RoleLists[f[i]]] : f \in [1..n -> 1..4]} : n \in 0..maxp}
 ActorBagsUpTo(m) == UNION {{MkActors(f, n) : f \in NonDecr(n, NKinds)} : n \in 0..m}
-BoundFor(p, m) == IF Len(p) >= BigPeers /\ SmallActors < m THEN SmallActors ELSE m
+BoundFor(p, m) == LET b == IF Len(p) > BigPeers THEN SmallActors - 1 ELSE IF Len(p) = BigPeers THEN SmallActors ELSE m
+                  IN IF b < m THEN b ELSE m
 ActorSeqs(maxn) == UNION {{MkActors(f, n) : f \in [1..n -> 1..3]} : n \in 0..maxn}   \* ordered, no singletons
 LoadsFor(p) == {<<>>} \cup [1..(Len(p) + 1) -> 0..MaxLoad]
 
@@ -38,9 +39,11 @@ ReassignCases == UNION {UNION {{[op |-> "Reassign", lr |-> RoleLists[a], surv |-
 
 SortedSeqs(S) == {s \in UNION {[1..n -> S] : n \in 0..Cardinality(S)} : \A i \in 1..(Len(s) - 1) : s[i] < s[i + 1]}
 ShareGrains == UNION {{[i \in 1..n |-> [id |-> 100 + i, eager |-> (i > k)]] : k \in 0..n} : n \in 0..2}
-ShareCases == UNION {UNION {{[op |-> "Share", peers |-> p, target |-> t, okb |-> b, down |-> d, actors |-> s, grains |-> g]
-                               : b \in 0..MaxOkb, d \in SortedSeqs(DOMAIN p \ {t}), s \in ActorSeqs(BoundFor(p, MaxShareActors)), g \in ShareGrains}
-                            : t \in DOMAIN p} : p \in PeerSeqs(MaxSharePeers) \ {<<>>}}
+ShareCasesFor(maxp, maxa) ==
+  UNION {UNION {{[op |-> "Share", peers |-> p, target |-> t, okb |-> b, down |-> d, actors |-> s, grains |-> g]
+                   : b \in 0..MaxOkb, d \in SortedSeqs(DOMAIN p \ {t}), s \in ActorSeqs(maxa), g \in ShareGrains}
+                : t \in DOMAIN p} : p \in PeerSeqs(maxp) \ {<<>>}}
+ShareCases == ShareCasesFor(MaxSharePeers, MaxShareActors) \cup ShareCasesFor(MaxSharePeers2, MaxShareActors2)
 
 \* registry records: every combination of flags for up to MaxDerive actors and grains (canonical order)
 Flags2 == << <<FALSE, FALSE>>, <<FALSE, TRUE>>, <<TRUE, FALSE>>, <<TRUE, TRUE>> >>
